@@ -211,6 +211,10 @@ class C03FillND(Harness):
                         continue
                     yield (f"nd-K{K}-S{'x'.join(map(str, shape))}-i{inc}-{_hname(hist)}-w{wk}-k{int(keep)}",
                            dict(K=K, shape=list(shape), inc=[(inc[k % 2] == "T") for k in range(len(shape))], hist=hist, weights=wk, keep_missed=keep))
+        # an axis of three bins separated by two gaps (every junction gapped)
+        for hist in ND_HIST[1]:
+            for inc in ("TF", "FT"):
+                yield (f"nd-K1-S3x1-i{inc}-{_hname(hist)}-wint-k1-gapped0", dict(K=1, shape=[3, 1], inc=[c == "T" for c in inc], hist=hist, weights="int", keep_missed=True, gapped=0))
 
     def declare(self, cx, p):
         K, shape = p["K"], p["shape"]
@@ -225,6 +229,10 @@ class C03FillND(Harness):
             if cx.sym:
                 cx.assume(*[w >= 0 for w in x["w"]])
         x["e"] = [[cx.real(f"e{k}_{j}") for j in range(shape[k] + 1)] for k in range(D)]
+        if p.get("gapped") is not None:
+            x["gap"] = [cx.real(f"gap{j}") for j in range(shape[p["gapped"]] - 1)]
+            if cx.sym:
+                cx.assume(*[g > 0 for g in x["gap"]])
         if cx.sym:
             for k in range(D):
                 e = [cx.t(i) for i in x["e"][k]]
@@ -240,10 +248,21 @@ class C03FillND(Harness):
             cx.define("on_open_last_edge", z3.Or(on_last) if on_last else z3.BoolVal(False))
         return x
 
+    @staticmethod
+    def _pairs(p, x, k, conv=lambda v: v):
+        """(left, right) of every bin of axis k; on the gapped axis bin j is shifted right by the gaps in front of it."""
+        e = [conv(t) for t in x["e"][k]]
+        out, shift = [], 0
+        for j in range(p["shape"][k]):
+            if p.get("gapped") == k and j > 0:
+                shift = shift + conv(x["gap"][j - 1])
+            out.append((e[j] + shift, e[j + 1] + shift))
+        return out
+
     def _mk(self, E, p, x):
         SB = E.mod("physt.binnings").StaticBinning
         D = len(p["shape"])
-        return [SB([[x["e"][k][j], x["e"][k][j + 1]] for j in range(p["shape"][k])], includes_right_edge=p["inc"][k]) for k in range(D)]
+        return [SB([[l, r] for l, r in self._pairs(p, x, k)], includes_right_edge=p["inc"][k]) for k in range(D)]
 
     def drive(self, E, p, x):
         np = E.np
@@ -295,9 +314,11 @@ class C03FillND(Harness):
         nanrow = [z3.Or([cx.isnan(c) for c in row]) for row in x["x"]]
         w = [cx.t(i) for i in x["w"]] if "w" in x else [z3.IntVal(1)] * K
         e = [[cx.t(i) for i in x["e"][k]] for k in range(D)]
+        LR = [self._pairs(p, x, k, cx.t) for k in range(D)]
 
         def memb(i, k, j):
-            return in_bin(v[i][k], e[k][j], e[k][j + 1], j == shape[k] - 1 and p["inc"][k])
+            l, r = LR[k][j]
+            return in_bin(v[i][k], l, r, j == shape[k] - 1 and p["inc"][k])
 
         def getcell(a, idx):
             for i in idx:
@@ -361,6 +382,8 @@ class C03Transformed(Harness):
     def instances(self, tier):
         for name in self.EDGES:
             yield f"tr-{name}", dict(cls=name)
+            # a NaN coordinate entered with dropna=False is booked as missed, exactly as a single fill does
+            yield f"tr-{name}-nan-nodrop", dict(cls=name, nan=True)
 
     def declare(self, cx, p):
         d = 2 if p["cls"] == "polar" else 3
@@ -384,6 +407,13 @@ class C03Transformed(Harness):
         def snap(h):
             return {"freq": h.frequencies.tolist(), "err2": h.errors2.tolist(), "missed": h.missed}
 
+        if p.get("nan"):
+            pt = [float("nan")] + pt[1:]
+            a, b = cls(bins), cls(bins)
+            r1 = E.attempt(a.fill, np.asarray(pt, dtype=float), x["w"])
+            r2 = E.attempt(b.fill_n, np.asarray([pt], dtype=float), weights=np.asarray([x["w"]]), dropna=False)
+            bad = next((r for r in (r1, r2) if isinstance(r, Raised)), None)
+            return {"raised_any": bad} if bad is not None else {"raised_any": None, "nan_case": True, "fill": snap(a), "fill_n": snap(b)}
         a, b, c = cls(bins), cls(bins), cls(bins)
         fb = E.attempt(a.find_bin, np.asarray(pt, dtype=float))
         r1 = E.attempt(a.fill, np.asarray(pt, dtype=float), x["w"])
@@ -401,6 +431,11 @@ class C03Transformed(Harness):
             return
         w = cx.t(x["w"])
         flat = lambda a: [c for r in a for c in (flat(r) if isinstance(r, list) else [r])]  # noqa: E731
+        if obs.get("nan_case"):
+            A, B = obs["fill"], obs["fill_n"]
+            yield "fill_and_fill_n_agree", z3.And([cx.t(u) == cx.t(v) for u, v in zip(flat(A["freq"]) + flat(A["err2"]) + [A["missed"]], flat(B["freq"]) + flat(B["err2"]) + [B["missed"]])])
+            yield "nan_point_is_missed", z3.And(cx.t(A["missed"]) == w, cx.t(B["missed"]) == w)
+            return
         A, B, C = obs["fill"], obs["fill_n"], obs["lshift"]
         yield "fill_and_fill_n_agree", z3.And([cx.t(u) == cx.t(v) for u, v in zip(flat(A["freq"]) + flat(A["err2"]) + [A["missed"]], flat(B["freq"]) + flat(B["err2"]) + [B["missed"]])])
         yield "lshift_is_unit_fill", z3.And([cx.t(u) * w == cx.t(v) for u, v in zip(flat(C["freq"]) + [C["missed"]], flat(A["freq"]) + [A["missed"]])])
@@ -420,3 +455,56 @@ class C03Transformed(Harness):
             yield "indexed_cell_incremented", (cx.t(cell) == w) if ok else False
         else:
             yield "missed_incremented", cx.t(A["missed"]) == w
+
+
+
+@register
+class C03Dtypes(Harness):
+    prop = "C03"
+    group = "dtypes"
+    bounds_doc = "fill / fill_n on histograms whose element type differs from the weight's: float32 histogram + default (int) weight, int64 histogram + float32 weights, int16 histogram + int64 weights (1D, 2 bins; symbolic value and contents that are multiples of 1/4): accepted, contents = old + weight exactly, identical for fill and fill_n"
+
+    CASES = {"f32_int": ("float32", None), "i64_f32": ("int64", "float32"), "i16_i64": ("int16", "int64"), "f16_f64": ("float16", "float64")}
+
+    def instances(self, tier):
+        for c in self.CASES:
+            yield f"dt-{c}", dict(case=c)
+
+    def declare(self, cx, p):
+        x = {"k": cx.ints("k", 2, 0, 40), "v": cx.pyfloat("v"), "n": cx.int("n", 1, 8)}
+        if cx.sym:
+            cx.assume(x["v"] >= 0, x["v"] <= 2)
+        return x
+
+    def drive(self, E, p, x):
+        np = E.np
+        H1 = E.mod("physt.histogram1d").Histogram1D
+        hd, wd = self.CASES[p["case"]]
+        vals = [x["k"][0] / 4.0, x["k"][1] / 4.0] if hd[0] == "f" else list(x["k"])
+        mk = lambda: H1(np.asarray([0.0, 1.0, 2.0]), np.asarray(vals, dtype=hd))  # noqa: E731
+        a, b = mk(), mk()
+        if wd is None:
+            r1, r2 = E.attempt(a.fill, x["v"]), E.attempt(b.fill_n, np.asarray([x["v"]]))
+        else:
+            wv = x["n"] / 4.0 if wd[0] == "f" else x["n"]
+            w_scalar = np.asarray([wv], dtype=wd)[0]
+            r1, r2 = E.attempt(a.fill, x["v"], w_scalar), E.attempt(b.fill_n, np.asarray([x["v"]]), weights=np.asarray([wv], dtype=wd))
+        bad = next((r for r in (r1, r2) if isinstance(r, Raised)), None)
+        if bad is not None:
+            return {"op_raised": bad}
+        return {"fill": snap1d(E, a), "fill_n": snap1d(E, b)}
+
+    def oracle(self, cx, p, x, obs):
+        yield "no_exception", obs.get("raised") is None and obs.get("op_raised") is None
+        if obs.get("raised") is not None or obs.get("op_raised") is not None:
+            return
+        hd, wd = self.CASES[p["case"]]
+        k = [z3.ToReal(cx.t(i)) / (4 if hd[0] == "f" else 1) for i in x["k"]]
+        w = z3.RealVal(1) if wd is None else z3.ToReal(cx.t(x["n"])) / (4 if wd[0] == "f" else 1)
+        v = cx.t(x["v"])
+        ref = [k[0] + z3.If(v < 1, w, 0), k[1] + z3.If(v >= 1, w, 0)]
+        for key in ("fill", "fill_n"):
+            s = obs[key]
+            yield f"{key}_contents_exact", z3.And([cx.eq(s["freq"][j], ref[j]) for j in range(2)])
+            yield f"{key}_dtype_consistent", s["dtype"] == s["fdtype"] == s["edtype"]
+        yield "same_dtype_either_way", obs["fill"]["dtype"] == obs["fill_n"]["dtype"] or (wd is None)
